@@ -24,8 +24,11 @@ Fixpoint stream_eqb (a b : list (Z * Z)) : bool :=
   | _, _ => false
   end.
 
+(* variants 3 / 4: the body of a switch_ branch wired inline / wrapped in nested_<> (a nested node that starts
+   mid-run); they are optional, but run (or fail) together *)
 Definition accept (out : wire) : bool :=
   completed 0 out && completed 1 out && completed 2 out
-  && stream_eqb (stream_of 1 out) (stream_of 0 out) && stream_eqb (stream_of 2 out) (stream_of 0 out).
+  && stream_eqb (stream_of 1 out) (stream_of 0 out) && stream_eqb (stream_of 2 out) (stream_of 0 out)
+  && Bool.eqb (completed 3 out) (completed 4 out) && stream_eqb (stream_of 4 out) (stream_of 3 out).
 
 Definition run_nestw (w : wire) : wire := if accept (after_marker w) then [[1]] else [[0]].
